@@ -1779,4 +1779,153 @@ theorem allClose_exact_chain (s : List Rat) (h : allClose Tol.exact s.dropLast s
         · exact hy
       exact this x hx' y hy'
 
+/-! ### round 4 (second part): converse of the list index, the n-d `uniform_partition` front end,
+n-d point location -/
+
+theorem pairwise_of_adjacent (idx : List Nat)
+    (adj : ∀ i (h : i + 1 < idx.length), idx[i] < idx[i + 1]) : idx.Pairwise (· < ·) := by
+  rw [List.pairwise_iff_getElem]
+  intro i j hi hj hij
+  obtain ⟨d, rfl⟩ : ∃ d, j = i + d + 1 := ⟨j - i - 1, by omega⟩
+  induction d with
+  | zero => exact adj i hj
+  | succ d ih =>
+    have h1 := ih (by omega) (by omega)
+    have h2 := adj (i + d + 1) hj
+    exact lt_trans h1 h2
+
+theorem toArray_getD_lt (l : List Nat) (i : Nat) (h : i < l.length) : l.toArray.getD i 0 = l[i] := by
+  simp [Array.getD, h]
+
+theorem getList_some_sorted (P : Part1) (hv : Valid P) (l : List Int) (Q : Part1)
+    (h : P.getList l = some Q) :
+    ∃ first rest, l.mapM (wrapIndex P.n) = some (first :: rest) ∧
+      (first :: rest).Pairwise (· < ·) := by
+  unfold Part1.getList at h
+  cases hw : l.mapM (wrapIndex P.n) with
+  | none => simp [hw] at h
+  | some idx =>
+    cases idx with
+    | nil => simp [hw] at h
+    | cons first rest =>
+      refine ⟨first, rest, rfl, ?_⟩
+      have hlt : ∀ k ∈ first :: rest, k < P.n := mapM_wrapIndex_lt P.n l _ hw
+      rw [hw] at h
+      simp only [Option.bind_eq_bind, Option.bind_some, List.head?_cons,
+        List.getLast?_eq_getLast_of_ne_nil (List.cons_ne_nil _ _)] at h
+      unfold Part1.mk? at h
+      split at h
+      · rename_i hwf
+        have hV := valid_of_wf _ hwf
+        apply pairwise_of_adjacent
+        intro i hi
+        have hm : P.c ((first :: rest).toArray.getD i 0) < P.c ((first :: rest).toArray.getD (i + 1) 0) :=
+          hV.mono i (by simpa using hi)
+        have e1 := toArray_getD_lt (first :: rest) i (by omega)
+        have e2 := toArray_getD_lt (first :: rest) (i + 1) hi
+        rw [e1, e2] at hm
+        by_contra hc
+        have := hv.c_mono (not_lt.1 hc) (hlt _ (List.getElem_mem _))
+        linarith
+      · simp at h
+
+/-- one axis of a `uniform_partition` request: `(min, max, shape, cell_sides)` entries, each possibly `None` -/
+structure Req where
+  xmin : Option Rat
+  xmax : Option Rat
+  n : Option Int
+  dx : Option Rat
+
+theorem uniformPartition_axes (t : Tol) (eps : Rat) (AR : List (UAxis × Req)) (f : Flags)
+    (hf : f.loopFlags AR.length = some (AR.map fun x => (x.1.bl, x.1.br)))
+    (hreq : ∀ x ∈ AR, completeAxis t eps x.2.xmin x.2.xmax x.2.n x.2.dx x.1.bl x.1.br =
+      some (x.1.lo, x.1.hi, (x.1.n : Int)))
+    (h : ∀ x ∈ AR, x.1.lo < x.1.hi ∧ 1 ≤ x.1.n) :
+    uniformPartition t eps (AR.map (·.2.xmin)) (AR.map (·.2.xmax)) (AR.map (·.2.n)) (AR.map (·.2.dx)) f =
+      some (AR.map fun x => x.1.part) := by
+  have hlen : (AR.map fun x => (x.1.bl, x.1.br)).length = AR.length := by simp
+  have hgf := gridFlags_ofNormalized (AR.map fun x => (x.1.bl, x.1.br)) AR.length hlen
+  have hdone : (List.zip (List.zip (AR.map (·.2.xmin)) (AR.map (·.2.xmax)))
+      (List.zip (List.zip (AR.map (·.2.n)) (AR.map (·.2.dx))) (AR.map fun x => (x.1.bl, x.1.br)))).mapM
+      (fun (x : (Option Rat × Option Rat) × ((Option Int × Option Rat) × (Bool × Bool))) =>
+        completeAxis t eps x.1.1 x.1.2 x.2.1.1 x.2.1.2 x.2.2.1 x.2.2.2) =
+      some (AR.map fun x => (x.1.lo, x.1.hi, (x.1.n : Int))) := by
+    rw [List.zip_map', List.zip_map', List.zip_map', List.zip_map', List.mapM_map]
+    apply mapM_some_of_forall
+    intro x hx
+    exact hreq x hx
+  have hA := fromIntv_axes (AR.map (·.1)) (by
+    intro a ha
+    obtain ⟨x, hx, rfl⟩ := List.mem_map.1 ha
+    exact h x hx)
+  simp only [List.map_map] at hA
+  unfold uniformPartition
+  simp only [List.length_map, ne_eq, not_true_eq_false, or_self, if_false, hf]
+  simp only [Option.bind_eq_bind, Option.bind_some]
+  rw [hdone, hgf]
+  simp only [Option.bind_some]
+  have hany : ((AR.map fun x => (x.1.lo, x.1.hi, (x.1.n : Int))).any fun x => decide (x.2.2 < 1)) = false := by
+    rw [List.any_eq_false]
+    intro y hy
+    obtain ⟨x, hx, rfl⟩ := List.mem_map.1 hy
+    have := (h x hx).2
+    simp only [decide_eq_true_eq, not_lt]
+    omega
+  rw [hany]
+  simp only [Bool.false_eq_true, if_false, List.map_map, Function.comp_def, Int.toNat_natCast] at hA ⊢
+  exact hA
+
+/-- `v` lies in the partitioned box -/
+def InBox : Part → List Rat → Prop
+  | [], [] => True
+  | p :: P, x :: v => (p.lo ≤ x ∧ x ≤ p.hi) ∧ InBox P v
+  | _, _ => False
+
+/-- cell `ks` contains `v` (half-open cells, the last one closed) -/
+def InCells : Part → List Rat → List Nat → Prop
+  | [], [], [] => True
+  | p :: P, x :: v, k :: ks =>
+      (k < p.n ∧ p.bdry k ≤ x ∧ (x < p.bdry (k + 1) ∨ (k + 1 = p.n ∧ x = p.hi))) ∧ InCells P v ks
+  | _, _, _ => False
+
+theorem ndIndex_correct (P : Part) (hv : ∀ p ∈ P, Valid p ∧ Nondegenerate p) (v : List Rat)
+    (hb : InBox P v) :
+    ∃ ks : List Nat, ndIndex P v = some (ks.map fun (k : Nat) => (k : Int)) ∧ InCells P v ks := by
+  induction P generalizing v with
+  | nil =>
+    cases v with
+    | nil => exact ⟨[], rfl, trivial⟩
+    | cons x v => exact absurd hb (by simp [InBox])
+  | cons p P ih =>
+    cases v with
+    | nil => exact absurd hb (by simp [InBox])
+    | cons x v =>
+      obtain ⟨⟨h1, h2⟩, hb'⟩ := hb
+      obtain ⟨hp, hn⟩ := hv p (by simp)
+      obtain ⟨k, hk, hkn, hb1, hb2, _⟩ := index_spec p hp (bdry_lt_succ p hp hn) x h1 h2
+      obtain ⟨ks, hks, hc⟩ := ih (fun q hq => hv q (by simp [hq])) v hb'
+      refine ⟨k :: ks, ?_, ⟨hkn, hb1, hb2⟩, hc⟩
+      simp [ndIndex, hk, hks]
+
+theorem ndIndex_outside (P : Part) (v : List Rat) (hb : ¬ InBox P v) : ndIndex P v = none := by
+  induction P generalizing v with
+  | nil =>
+    cases v with
+    | nil => exact absurd trivial hb
+    | cons x v => rfl
+  | cons p P ih =>
+    cases v with
+    | nil => rfl
+    | cons x v =>
+      by_cases hx : p.lo ≤ x ∧ x ≤ p.hi
+      · have hb' : ¬ InBox P v := fun h => hb ⟨hx, h⟩
+        simp [ndIndex, ih v hb']
+      · have : p.index x = none := by
+          unfold Part1.index
+          rw [if_pos]
+          rcases not_and_or.1 hx with h | h
+          · exact Or.inl (not_le.1 h)
+          · exact Or.inr (not_le.1 h)
+        simp [ndIndex, this]
+
 end OdlModel.Partition
